@@ -146,6 +146,12 @@ func ingressBubble(c *explore.Ctx, pc *world.ProducerChain, crowded bool) (out o
 			return idx[c.Choose("order", n)]
 		}
 		sched.Interrupt = func() bool {
+			if sched.Interrupted {
+				// the stop was decided at an earlier grant of this tick: nothing runs any more (Settle calls Drain several
+				// times per tick; without this the later calls would go on granting and the queues would be empty by
+				// the time the harness handles the interrupt)
+				return true
+			}
 			if restarts >= 1 {
 				return false
 			}
@@ -190,7 +196,15 @@ func ingressBubble(c *explore.Ctx, pc *world.ProducerChain, crowded bool) (out o
 			return nil
 		}
 		restarts++
-		out.trace = append(out.trace, fmt.Sprintf("clean-restart(after %d steps)", sched.Steps))
+		// what is lost with the process: the events still queued in front of the sync loop
+		var queued []string
+		for _, v := range sched.Virtuals {
+			if v.Enabled() {
+				queued = append(queued, strings.TrimSuffix(strings.TrimPrefix(v.Name, "deliver:"), "->sync"))
+			}
+		}
+		out.trace = append(out.trace, fmt.Sprintf("clean-restart(after %d steps, queued and lost: %s)", sched.Steps, strings.Join(queued, "+")))
+		out.lostQueued = out.lostQueued || len(queued) > 0
 		f.Stop()
 		if err := f.N.M.SaveCache(); err != nil {
 			return &world.Fail{Clause: "restart", Msg: "SaveCache: " + err.Error()}
